@@ -81,10 +81,11 @@ def run(P, R):
             and isinstance(a.targets[0], ast.Name)}
     ok = len(ad) == 1 and {(IS_MASTER, True), crash, ('process.forced_state is None', True)} <= \
         {tuple(f) for f in fm.at(ad[0])} and \
-        defs.get('stop_strategy') == 'strategy == RunningFailureStrategies.STOP_APPLICATION' and \
-        defs.get('restart_strategy') == 'strategy == RunningFailureStrategies.RESTART_APPLICATION' and \
         defs.get('strategy') == 'process.rules.running_failure_strategy' and \
-        any(f[1] and f[0] == 'stop_strategy or restart_strategy' for f in fm.at(ad[0]))
+        any(f[1] and f[0] in ('strategy in [RunningFailureStrategies.STOP_APPLICATION, '
+                              'RunningFailureStrategies.RESTART_APPLICATION]',
+                              'strategy in [RunningFailureStrategies.RESTART_APPLICATION, '
+                              'RunningFailureStrategies.STOP_APPLICATION]') for f in fm.at(ad[0]))
     R.check(r2, ok, 'crash with an application-level strategy -> add_default_job (not for a forced state)',
             'dispatch|crash|application', pe.loc(), 'on_process_state_event does not call add_default_job exactly for a '
             'crashed, non-forced process with STOP_APPLICATION / RESTART_APPLICATION on the Master')
